@@ -87,6 +87,17 @@ def _main(kind):
             spec_h = c.re(tx) ** 2 + c.im(tx) ** 2 + c.re(ty) ** 2 + c.im(ty) ** 2
             c.ensures("hologram-formula", c.eq(H[idx], spec_h))
             c.ensures("intensity-formula", c.eq(I[idx], c.re(ex) ** 2 + c.im(ex) ** 2 + c.re(ey) ** 2 + c.im(ey) ** 2))
+        # the kernel is asked for exactly the detector's pixels: k * (pixel - centre), z measured against the light
+        import holopy.core.math as hmath
+        from holopy.core.metadata import flat
+        fl = flat(det)
+        k = 2 * c.pi / (lam / n_med)
+        A = (lambda v: np.array(v, dtype=object if c.symbolic else float))
+        want = hmath.transform_cartesian_to_spherical([A([k * (x - cen[0]) for x in fl.x.values]),
+                                                       A([k * (y - cen[1]) for y in fl.y.values]),
+                                                       A([k * (cen[2] - z) for z in fl.z.values])])
+        c.ensures("kernel-evaluated-at-the-detector-pixels", c.and_(len(th.calls) >= 1, *[c.eq(call['pos'], want) for call in th.calls]))
+        c.ensures("kernel-wavevector", c.and_(*[c.eq(call['k'], k) for call in th.calls]))
         zero = c.call(calc_holo, det, sph, scaling=0, **kw)
         c.ensures("scaling-zero-gives-one", c.and_(*[c.eq(v, 1) for v in zero.values.flat]))
         # coordinates and metadata
